@@ -201,7 +201,7 @@ def check(run):
         mod = repo.module(prel)
         entries += [f for f in mod.funcs.values()]
     resolve.check_cone(run, repo, entries, 'polynomial algebra')
-    run.floor('R14', 20)
+    run.floor('R14', 15)
     run.floor('R6', 40)
     run.floor('R12.qutip', 40)
     run.floor('R12.rmul', 16)
